@@ -18,6 +18,12 @@ Line protocol of the C11 driver (one output line per input line).
   drain <rounds>                           -> drained <id,..|-> <last error kind>
   rawgood <id> <segs>                      -> n <len>   (raw + declares segs[8..] good)
 
+Worker-side run (chanworker): the spec is a FIFO of unanswered request ids.
+  wstart <buffer> <max> <sndbuf>           -> started
+  wreq <seq> <idlen>                       -> sent
+  wread <k>                                -> got <seq,seq,..|->    (the next k outstanding, in request order)
+  wstop                                    -> alive left=<n>
+
 <segs> = `-` (empty) or comma-separated segments, each a hex string or
 `<count>x<hexbyte>` (run of one byte).  The decode oracle (`decodes`) is the
 table of payloads declared good so far: prost is a parameter of the model.
@@ -60,6 +66,7 @@ def errStr : Err → String
 structure DState where
   sys : Sys
   table : List (Bytes × String)   -- payload ↦ message id
+  wq : List Nat := []             -- worker-side spec: requests not answered yet
 
 def DState.decodes (d : DState) (p : Bytes) : Bool := d.table.any fun e => e.1 == p
 
@@ -111,6 +118,18 @@ def stepLine (d : DState) (line : String) : DState × List String :=
     match k.toNat? with
     | some k => apply d (.deliver k)
     | none => (d, ["bad-op"])
+  | ["wstart", _, _, _] => ({ d with wq := [] }, ["started"])
+  | ["wreq", i, _] =>
+    match i.toNat? with
+    | some i => ({ d with wq := (wstep d.wq (.req i)).1 }, ["sent"])
+    | none => (d, ["bad-op"])
+  | ["wread", k] =>
+    match k.toNat? with
+    | some k =>
+      let (q, o) := wstep d.wq (.read k)
+      ({ d with wq := q }, ["got " ++ (if o.isEmpty then "-" else ",".intercalate (o.map toString))])
+    | none => (d, ["bad-op"])
+  | ["wstop"] => (d, ["alive left=" ++ toString d.wq.length])
   | ["readable"] => apply d .readable
   | ["read"] => apply d .read
   | ["extract"] => apply d .extract
